@@ -55,6 +55,11 @@
 #define MIN_SORTER_MEMORY		10485760
 #define INITIAL_SORTER_VEC_SIZE		131072
 
+#ifdef MTBL_VERIF
+#undef MIN_SORTER_MEMORY
+#define MIN_SORTER_MEMORY		1
+#endif
+
 #define DEFAULT_FILESET_RELOAD_INTERVAL	60
 
 /* types */
